@@ -198,6 +198,95 @@ theorem draws_depend_only_on_seed_full (n : Nat) (body : Prog) (sp' : Bool)
   rw [h1, h2, c1, c2, hcan, hemb, e1, e2]
   exact ⟨rfl, rfl⟩
 
+/-- tokens and outcome of `with Context(s): body` in terms of the body's run, for ANY body that leaves a non-empty stack -/
+theorem ctx_result (s : SeedSpec) (body : Prog) (st st1 : St) (r : Nat) (f : Frame) (rest : List Frame)
+    (hres : resolve st s = some (st1, r)) (hst : (exec body (pushRef st1 r)).st.stack = f :: rest) :
+    (exec (.ctx s body .done) st).st.out = (exec body (pushRef st1 r)).st.out ∧
+    (exec (.ctx s body .done) st).out =
+      (if rest.length ≠ depth st1 then .exc .runtimeError else (exec body (pushRef st1 r)).out) := by
+  have key : exec (.ctx s body .done) st =
+      (if rest.length ≠ depth st1 then
+         ⟨setStack (exec body (pushRef st1 r)).st rest, .exc .runtimeError,
+           min (min (depth st) (exec body (pushRef st1 r)).low) rest.length⟩
+       else match (exec body (pushRef st1 r)).out with
+        | .exc e => ⟨setStack (exec body (pushRef st1 r)).st rest, .exc e,
+            min (min (depth st) (exec body (pushRef st1 r)).low) rest.length⟩
+        | .ok =>
+          let rk := exec .done (setStack (exec body (pushRef st1 r)).st rest)
+          ⟨rk.st, rk.out, min (min (min (depth st) (exec body (pushRef st1 r)).low) rest.length) rk.low⟩) := by
+    conv_lhs => unfold exec
+    simp only [hres, hst]
+    try rfl
+  rw [key]
+  by_cases hne : rest.length ≠ depth st1
+  · rw [if_pos hne, if_pos hne]; exact ⟨rfl, rfl⟩
+  · rw [if_neg hne, if_neg hne]
+    cases ho : (exec body (pushRef st1 r)).out with
+    | exc e => exact ⟨rfl, rfl⟩
+    | ok => simp [exec, setStack]
+
+/-- the state right after entering `Context(n)` from the canonical (empty) state -/
+def entered (n : Nat) : St := ⟨[⟨n, [], 0⟩], [⟨0, ⟨n, [], []⟩⟩], [], []⟩
+
+/-- **draws_depend_only_on_seed_general**: the same statement for bodies WITH raw `push_sseq` / `pop_sseq` calls,
+    balanced or not, as long as the body never pops the context's own frame (its canonical run stays at depth ≥ 1) and
+    uses only seed sequences created inside: all tokens and the outcome (including `RuntimeError` for an unbalanced body)
+    are the same from every entry state -/
+theorem draws_depend_only_on_seed_general (n : Nat) (body : Prog) (sp' : Bool)
+    (hc : closedFrom false body = some sp') (hl : 1 ≤ (exec body (entered n)).low) (st : St) :
+    (exec (.ctx (.seed n) body .done) st).st.out = st.out ++ (exec (.ctx (.seed n) body .done) canon).st.out ∧
+    (exec (.ctx (.seed n) body .done) st).out = (exec (.ctx (.seed n) body .done) canon).out := by
+  have hres : resolve st (.seed n) = some ({ st with heap := st.heap ++ [(⟨n, [], 0⟩ : SeqObj)] }, st.heap.length) := rfl
+  have hresc : resolve canon (.seed n) = some ({ canon with heap := canon.heap ++ [(⟨n, [], 0⟩ : SeqObj)] }, canon.heap.length) := rfl
+  let env : Env := ⟨st.heap, st.stack, st.out, st.lastSpawn⟩
+  have hcan : pushRef { canon with heap := canon.heap ++ [(⟨n, [], 0⟩ : SeqObj)] } canon.heap.length = entered n := by
+    simp [pushRef, canon, mkGen, entered]
+  have hemb : pushRef { st with heap := st.heap ++ [(⟨n, [], 0⟩ : SeqObj)] } st.heap.length = embed env false (entered n) := by
+    have hg : (st.heap ++ [(⟨n, [], 0⟩ : SeqObj)]).getD st.heap.length ⟨0, [], 0⟩ = ⟨n, [], 0⟩ := by simp [List.getD]
+    simp only [pushRef, hg, mkGen, embed, entered, env, shiftFrame, List.map_cons, List.map_nil, List.cons_append,
+      List.nil_append, List.append_nil, Nat.add_zero, Bool.false_eq_true, if_false]
+  obtain ⟨sp'', e1, e2, _⟩ := exec_embed_nodip body env false (entered n) sp' hc hl
+  -- the canonical body leaves a non-empty stack
+  have hne := (low_le body (entered n)).2
+  cases hst : (exec body (entered n)).st.stack with
+  | nil => simp only [depth, hst, List.length_nil] at hne; omega
+  | cons f rest =>
+    have hstE : (exec body (embed env false (entered n))).st.stack =
+        shiftFrame env.pre.length f :: (rest.map (shiftFrame env.pre.length) ++ env.base) := by
+      rw [e1, embed_stack, hst]; rfl
+    obtain ⟨c1, c2⟩ := ctx_result (.seed n) body canon _ _ f rest hresc (by rw [hcan]; exact hst)
+    obtain ⟨h1, h2⟩ := ctx_result (.seed n) body st _ _ _ _ hres (by rw [hemb]; exact hstE)
+    rw [h1, h2, c1, c2, hcan, hemb, e1, e2]
+    refine ⟨rfl, ?_⟩
+    have : ((rest.map (shiftFrame env.pre.length) ++ env.base).length ≠
+        depth ({ st with heap := st.heap ++ [(⟨n, [], 0⟩ : SeqObj)] } : St)) ↔
+        (rest.length ≠ depth ({ canon with heap := canon.heap ++ [(⟨n, [], 0⟩ : SeqObj)] } : St)) := by
+      simp [depth, env, canon]
+    by_cases hh : rest.length ≠ depth ({ canon with heap := canon.heap ++ [(⟨n, [], 0⟩ : SeqObj)] } : St)
+    · rw [if_pos hh, if_pos (this.mpr hh)]
+    · rw [if_neg hh, if_neg (fun x => hh (this.mp x))]
+
+/-! #### why the two remaining restrictions cannot be dropped (witnesses, checked by evaluation) -/
+
+/-- a body that pops the context's own frame and then draws reads the generator BELOW the context: what it draws is
+    decided by the history before the context -/
+theorem dipping_body_depends_on_history :
+    let body := Prog.pop (.draw 0 (.push (.seed 9) .done))
+    let st1 := (exec (.draw 0 .done) initSt).st        -- the outer generator has served one request
+    (exec (.ctx (.seed 7) body .done) initSt).st.out.drop initSt.out.length ≠
+      (exec (.ctx (.seed 7) body .done) st1).st.out.drop st1.out.length := by
+  decide
+
+/-- a nested context on a seed sequence that was spawned OUTSIDE depends on that outer object's spawn counter: spawning
+    from it inside the body gives different children, hence different draws, depending on earlier spawns -/
+theorem outer_spawn_depends_on_history :
+    let body := Prog.ctx (.last 0) (.spawn 1 (.ctx (.last 0) (.draw 0 .done) .done)) .done
+    let stA := (exec (.spawn 1 .done) initSt).st
+    let stB := (exec (.spawn 1 (.ctx (.last 0) (.spawn 2 .done) .done)) initSt).st   -- child 0 has already spawned twice
+    (exec (.ctx (.seed 7) body .done) stA).st.out.drop stA.out.length ≠
+      (exec (.ctx (.seed 7) body .done) stB).st.out.drop stB.out.length := by
+  decide
+
 /-- in particular two arbitrary entry states see the same new draws -/
 theorem draws_same_from_any_two_states (n : Nat) (body : Prog) (sp' : Bool)
     (hb : ctxOnly body = true) (hc : closedFrom false body = some sp') (st st' : St) :
@@ -273,5 +362,8 @@ example : (children ⟨42, [3], 2⟩ 2).map (·.key) = [[3, 2], [3, 3]] := by de
 -- a closed body with a spawned child context: accepted by `closedFrom`; a body using an OUTER spawn result is not
 example : closedFrom false (.spawn 2 (.ctx (.last 1) (.draw 0 .done) (.draw 1 .done))) = some true := by decide
 example : closedFrom false (.ctx (.last 0) (.draw 0 .done) .done) = none := by decide
+-- an unbalanced but non-dipping body with raw pushes: covered by the general theorem
+example : closedFrom false (.push (.seed 3) (.draw 1 (.pop (.push (.seed 4) .done)))) = some false ∧
+    1 ≤ (exec (.push (.seed 3) (.draw 1 (.pop (.push (.seed 4) .done)))) (entered 7)).low := by decide
 
 end NiftyVerif.C21
